@@ -632,6 +632,8 @@ pub enum Kind {
     VerifyFail,
     Crash,
     Immutable,
+    /// an existing regular file named with a trailing slash (the walker reports an error other than "not found")
+    NotDir,
     /// formatted except for its line terminators (CRLF under the default Unix setting)
     Crlf,
     /// formatted except that the final line terminator is missing
@@ -652,6 +654,7 @@ impl Kind {
             Kind::VerifyFail => 'V',
             Kind::Crash => 'C',
             Kind::Immutable => 'W',
+            Kind::NotDir => 'D',
             Kind::Crlf => 'L',
             Kind::NoEol => 'N',
             Kind::ReadOnly => 'R',
@@ -660,7 +663,7 @@ impl Kind {
     }
     pub fn bytes(self, i: usize) -> Vec<u8> {
         match self {
-            Kind::Formatted => format!("local x{} = 1\n", i).into_bytes(),
+            Kind::Formatted | Kind::NotDir => format!("local x{} = 1\n", i).into_bytes(),
             Kind::Unformatted | Kind::Immutable | Kind::ReadOnly | Kind::Unreadable => format!("local   x{}  =  2\n", i).into_bytes(),
             Kind::Unparseable => format!("local x{} = = 1\n", i).into_bytes(),
             Kind::Crlf => format!("local x{} = 1\r\nlocal y = 2\r\n", i).into_bytes(),
@@ -727,11 +730,11 @@ fn layout_paths(kinds: &[Kind], layout: &str) -> Vec<String> {
 }
 
 pub fn c13(thorough: bool, stats: &mut Stats) -> Vec<Failure> {
-    let alpha = [Kind::Formatted, Kind::Unformatted, Kind::Unparseable, Kind::InvalidUtf8, Kind::Missing, Kind::Crlf, Kind::NoEol];
+    let alpha = [Kind::Formatted, Kind::Unformatted, Kind::Unparseable, Kind::InvalidUtf8, Kind::Missing, Kind::Crlf, Kind::NoEol, Kind::NotDir];
     let mut scs = vec![];
     for ks in multisets(&alpha, if thorough { 4 } else { 3 }, false) {
         for layout in ["flat", "dir", "subdir", "dir+txt"] {
-            if layout != "flat" && ks.contains(&Kind::Missing) {
+            if layout != "flat" && (ks.contains(&Kind::Missing) || ks.contains(&Kind::NotDir)) {
                 continue;
             }
             for fmt in ["Standard", "Unified", "Json", "Summary"] {
@@ -755,7 +758,7 @@ pub fn c13(thorough: bool, stats: &mut Stats) -> Vec<Failure> {
                                 argv.push("--verify".into());
                             }
                             if layout == "flat" {
-                                let mut ps = paths.clone();
+                                let mut ps: Vec<String> = paths.iter().zip(ks.iter()).map(|(p, k)| if *k == Kind::NotDir { format!("{}/", p) } else { p.clone() }).collect();
                                 ps.rotate_left(rot);
                                 argv.extend(ps);
                             } else {
@@ -789,11 +792,11 @@ pub fn c13(thorough: bool, stats: &mut Stats) -> Vec<Failure> {
             let changed: Vec<&String> = o.after.keys().filter(|k| o.before.get(*k) != o.after.get(*k)).chain(o.before.keys().filter(|k| !o.after.contains_key(*k))).collect();
             f.push(("check-wrote".into(), format!("--check modified / created / touched {:?}", changed)));
         }
-        let any_fail = kinds.iter().any(|k| matches!(k, 'P' | 'I' | 'M'));
+        let any_fail = kinds.iter().any(|k| matches!(k, 'P' | 'I' | 'M' | 'D'));
         let n_unf = kinds.iter().filter(|k| matches!(**k, 'U' | 'L' | 'N')).count();
         let want = if any_fail { 2 } else if n_unf > 0 { 1 } else { 0 };
         if o.code != want {
-            f.push(("exit-status".into(), format!("exit status {} but expected {} ({} failing, {} differing)", o.code, want, kinds.iter().filter(|k| matches!(k, 'P' | 'I' | 'M')).count(), n_unf)));
+            f.push(("exit-status".into(), format!("exit status {} but expected {} ({} failing, {} differing)", o.code, want, kinds.iter().filter(|k| matches!(k, 'P' | 'I' | 'M' | 'D')).count(), n_unf)));
         }
         let stdout = String::from_utf8_lossy(&o.stdout).to_string();
         let reported: usize = match fmt {
@@ -852,6 +855,7 @@ pub fn c14(thorough: bool, stats: &mut Stats) -> Vec<Failure> {
     // are run as `nobody` on a tree handed over to it; a missing path can only be named explicitly
     let mut alpha_m = alpha.clone();
     alpha_m.push(Kind::Missing);
+    alpha_m.push(Kind::NotDir);
     let alpha_u = vec![Kind::Unformatted, Kind::Formatted, Kind::ReadOnly, Kind::Unreadable, Kind::Unparseable];
     let mut spaces: Vec<(Vec<Vec<Kind>>, Option<u32>)> = vec![(multisets(&alpha_m, if thorough { 4 } else { 3 }, true), None)];
     if unprivileged_supported() {
@@ -862,7 +866,7 @@ pub fn c14(thorough: bool, stats: &mut Stats) -> Vec<Failure> {
     for (sets, uid) in spaces {
         for ks in sets {
             for layout in ["flat", "dir", "subdir"] {
-                if layout != "flat" && ks.contains(&Kind::Missing) {
+                if layout != "flat" && (ks.contains(&Kind::Missing) || ks.contains(&Kind::NotDir)) {
                     continue;
                 }
                 for verify in [false, true] {
@@ -904,7 +908,7 @@ pub fn c14(thorough: bool, stats: &mut Stats) -> Vec<Failure> {
                                 argv.extend(["--output-format".into(), fmt.into()]);
                             }
                             if layout == "flat" {
-                                argv.extend(paths.clone());
+                                argv.extend(paths.iter().zip(ks.iter()).map(|(p, k)| if *k == Kind::NotDir { format!("{}/", p) } else { p.clone() }));
                             } else {
                                 argv.push(".".into());
                             }
